@@ -35,3 +35,10 @@ Print Assumptions C12_failed_reap_leaves_store_unchanged.
 Theorem C12_no_plan_left_behind : forall crcs es, plan (fst (run (fresh crcs) es)) = false.
 Proof. exact no_plan_left_behind. Qed.
 Print Assumptions C12_no_plan_left_behind.
+
+Theorem C12_unknown_record_is_rejected : forall s,
+  (exists f, In f (files s) /\ unknown f = true) ->
+  forall e, (exists ids, e = EOpen ids) \/ (exists ids gone v, e = EReap ids gone v) ->
+  snd (step s e) = Refused.
+Proof. exact unknown_record_is_rejected. Qed.
+Print Assumptions C12_unknown_record_is_rejected.
